@@ -53,6 +53,30 @@ static bool balanced(const std::string &ks) {
   return st.empty();
 }
 
+// kind codes of the non-skippable tokens (the index space of the window)
+static std::string visibleKinds() {
+  std::string v;
+  for (char k : kinds) if (k != 'c') v.push_back(k);
+  return v;
+}
+static char closerOf(char k) { return k == '(' ? ')' : k == '{' ? '}' : k == '[' ? ']' : k == '<' ? '>' : 0; }
+
+// getClosingPair: independent statement of what it must return on a balanced token list
+static void closingOracle(int r) {
+  if (ctx->hasError) return;
+  const std::string v = visibleKinds();
+  const int s = ctx->tp.start;
+  const bool opener = (ctx->tp.start < ctx->tp.end) && s < (int) v.size() && closerOf(v[s]);
+  if (!opener) { if (r != -1) hp::oracle("getClosingPair found a pair at a token that is not an opening bracket"); return; }
+  // the matching closer by depth counting
+  int depth = 0, want = -1;
+  for (int i = s; i < (int) v.size(); ++i) {
+    if (closerOf(v[i])) ++depth;
+    else if (v[i] == ')' || v[i] == '}' || v[i] == ']' || v[i] == '>') { if (--depth == 0) { want = i - s; break; } }
+  }
+  if (r != want) hp::oracle("getClosingPair is not the relative position of the matching closing bracket");
+}
+
 static void windowOracle() {
   if (!ctx) return;
   if (!(0 <= ctx->tp.start && ctx->tp.start <= ctx->tp.end && ctx->tp.end <= (int) ctx->tokenIndices.size()))
@@ -124,7 +148,7 @@ int main() {
           r = tok ? "tok" : "null";
         }
         else if (t[0] == "end" && t.size() == 1) { r = ctx->end() ? "tok" : "null"; }
-        else if (t[0] == "closing" && t.size() == 1) { ss << ctx->getClosingPair(); r = ss.str(); }
+        else if (t[0] == "closing" && t.size() == 1) { int x = ctx->getClosingPair(); closingOracle(x); ss << x; r = ss.str(); }
         else if (t[0] == "closingtok" && t.size() == 1) { r = ctx->getClosingPairToken() ? "tok" : "null"; }
         else if (t[0] == "printtok" && t.size() == 2) {
           tokenRange before = ctx->tp;
